@@ -173,6 +173,8 @@ struct res_s {
 	int hung;
 	int64_t first, last;
 	int nbad;
+	int ngarb;	/* instants whose time of day no input could have asked for (hour > 24, minute > 59, second > 60) */
+	echs_instant_t garb;
 	int revived;	/* an occurrence was delivered after end-of-stream had been answered */
 };
 
@@ -208,6 +210,9 @@ ask(const struct cas_s *c, double budget, struct res_s *r)
 		if (echs_nul_event_p(e)) {
 			r->ended = 1;
 			break;
+		}
+		if (!echs_instant_all_day_p(e.from) && (e.from.H > 24U || e.from.M > 59U || e.from.S > 60U) && !r->ngarb++) {
+			r->garb = e.from;
 		}
 		s = sf_inst_secs(e.from, &bad);
 		if (bad) {
@@ -268,6 +273,12 @@ run(struct cas_s *c, struct res_s *r)
 		return 0;
 	}
 	if (!r->hung) {
+		if (r->ngarb) {
+			char sig[320];
+			snprintf(sig, sizeof(sig), "garbage-instant/%s/%s", c->shape, c->emb);
+			vd_viol(sig, "%d occurrences carry a time of day no rule can ask for, first %04u-%02u-%02uT%02u:%02u:%02u", r->ngarb,
+				(unsigned)r->garb.y, (unsigned)r->garb.m, (unsigned)r->garb.d, (unsigned)r->garb.H, (unsigned)r->garb.M, (unsigned)r->garb.S);
+		}
 		if (r->revived) {
 			char sig[320];
 			snprintf(sig, sizeof(sig), "revived/%s/%s", c->shape, c->emb);
@@ -561,6 +572,19 @@ gen_hostile(hcb_t cb, void *clo)
 					}
 				}
 			}
+		}
+	}
+	/* H1b: every value the parser takes for the time parts, all at once (hour 24 and second 60 included) */
+	for (int f = RF_YEARLY; f <= RF_SECONDLY; f++) {
+		static const int full[][3] = {{25, 1, 1}, {1, 1, 61}, {25, 1, 61}, {25, 2, 1}, {2, 1, 61}};
+		for (size_t q = 0; q < sizeof(full) / sizeof(*full); q++) {
+			size_t o = (size_t)snprintf(h.rrule, sizeof(h.rrule), "FREQ=%s", fnm[f]);
+			if (full[q][0] > 1) o += seq(h.rrule + o, sizeof(h.rrule) - o, "BYHOUR", full[q][0]);
+			if (full[q][1] > 1) o += seq(h.rrule + o, sizeof(h.rrule) - o, "BYMINUTE", full[q][1]);
+			if (full[q][2] > 1) o += seq(h.rrule + o, sizeof(h.rrule) - o, "BYSECOND", full[q][2]);
+			snprintf(h.shape, sizeof(h.shape), "%s/tod-every-accepted-value", fnm[f]);
+			h.freq = f;
+			cb(&h, clo);
 		}
 	}
 	/* H2: INTERVAL against one BY-part, matching and not matching DTSTART (2024-02-29T10:30:15 Thursday / 2022-12-31T23:59:59 Saturday) */
